@@ -88,16 +88,27 @@ def _ext_poly(Vn, dim, tier="quick"):
         PT = t.inputs["pt"].snapshot.flat()
         PO = t.inputs["poly"].snapshot
         rows = [[PO.a[i, c] for c in range(dim)] for i in range(Vn)]
-        s = z3.Real("s!w")
-
-        def witness():
-            alts = []
-            for a in range(Vn):
-                for b in range(Vn):
-                    alts.append(z3.Exists([s], z3.And(0 <= s, s <= 1, *[V.R(rows[a][c]) + s * (V.R(rows[b][c]) - V.R(rows[a][c])) <= V.R(PT[c]) for c in range(dim)])))
-            return z3.Or(*alts)
-        t.prove_each_path("True_only_if_some_point_of_a_segment_between_two_vertices_is_componentwise_below_pt", paths,
-                          lambda p: z3.Implies(V.Bz(p.value), witness()) if p.kind == "return" and V.is_bool(p.value) else False, chunk=4)
+        # Soundness ("True only if some point of a segment between two vertices is componentwise below pt"), without
+        # quantifiers: (a) per path, True implies the exact decision; (b) once, every alternative of the exact decision
+        # exhibits an explicit witness: vertices a, b and a parameter s in [0, 1] with P_a + s (P_b - P_a) <= pt.
+        t.prove_each_path("sound/True_only_if_the_exact_vertex_or_segment_decision_holds", paths,
+                          lambda p: z3.Implies(V.Bz(p.value), exact_ext(PT, rows, dim)) if p.kind == "return" and V.is_bool(p.value) else False, chunk=4)
+        R = lambda v: V.R(v)
+        seg_pt_below = lambda a, b, sv: z3.And(0 <= sv, sv <= 1, *[R(rows[a][c]) + sv * (R(rows[b][c]) - R(rows[a][c])) <= R(PT[c]) for c in range(dim)])
+        wit = []
+        for a in range(Vn):
+            wit.append(z3.Implies(z3.And(*[R(rows[a][c]) <= R(PT[c]) for c in range(dim)]), seg_pt_below(a, a, z3.RealVal(0))))
+        for d in range(dim):
+            for i in range(Vn):
+                for j in range(Vn):
+                    if i == j:
+                        continue
+                    den = R(rows[j][d]) - R(rows[i][d])
+                    tt = (R(PT[d]) - R(rows[i][d])) / den
+                    alt = z3.And(den != 0, R(rows[i][d]) <= R(PT[d]), R(PT[d]) <= R(rows[j][d]), tt >= 0, tt <= 1,
+                                 *[R(rows[i][c]) + tt * (R(rows[j][c]) - R(rows[i][c])) <= R(PT[c]) for c in range(dim)])
+                    wit.append(z3.Implies(alt, seg_pt_below(i, j, tt)))
+        t.prove("sound/every_alternative_of_the_exact_decision_exhibits_a_segment_point_below_pt", z3.And(*wit), use_pre=False)
         t.prove_each_path("result_is_exactly_vertex_test_or_segment_intersection_test", paths,
                           lambda p: V.Bz(p.value) == exact_ext(PT, rows, dim) if p.kind == "return" and V.is_bool(p.value) else False, chunk=4)
         t.prove("returns_the_python_literals_True_or_False_on_every_path", z3.BoolVal(all(p.kind == "return" and isinstance(p.value, bool) for p in paths)))
